@@ -164,6 +164,39 @@ export function makeCases(ctx, n, fixed = null) {
   return cases
 }
 
+/** Fields named like members of Object.prototype: withheld fields must fall back to the tree update (the runtime
+ *  looks the field up in the table `B`), mapped ones must be served like any other. */
+function protoNamedProbes(ctx) {
+  const { ge, report } = ctx
+  const forms = [
+    [(n) => `<a wx:if="{{${n}}}">x</a><b/>`, '', 'x'],
+    [(n) => `<block wx:for="{{${n}}}"><i>{{item}}</i></block>`, [1], [1, 2]],
+    [(n) => `<a v="{{${n}}}"/>`, 'p', 'q'],
+    [(n) => `<template is="{{${n}}}"/><template name="t"><c/></template>`, '', 't'],
+  ]
+  const cases = []
+  for (const n of ['valueOf', 'toString', 'constructor', 'hasOwnProperty', 'isPrototypeOf']) for (const [mk, v0, v1] of forms) cases.push({ id: cases.length, n, src: mk(n), v0, v1 })
+  const results = compileMany(cases.map((c) => ({ id: c.id, files: [['p', c.src]], scripts: [] })))
+  for (const c of cases) {
+    const res = results.get(c.id)
+    if (!res || res.inconclusive) { report.inconc(res ? res.inconclusive : 'no result'); continue }
+    const G = evalGroups(res.groups)
+    const live = instantiate(ge, G, 'p', { [c.n]: c.v0 }, {})
+    if (live.error) { report.violation(`creation of ${c.src} threw: ${live.error}`, { src: c.src }); continue }
+    report.evals()
+    try {
+      withWarnings(ge, live.tr, () => live.comp.setData({ [c.n]: c.v1 }))
+    } catch (e) {
+      report.violation(`setData of the field "${c.n}" threw: ${String(e.message || e).slice(0, 200)}`, { src: c.src, field: c.n })
+      continue
+    }
+    const fresh = instantiate(ge, G, 'p', { [c.n]: c.v1 }, { keepEvents: false })
+    const d = diffSnap(maskPaths(snap(ge, live.comp, live.tr, {})), maskPaths(snap(ge, fresh.comp, fresh.tr, {})))
+    if (d) report.violation(`after setData of the field "${c.n}" (${Object.keys(live.tr.B || {}).includes(c.n) ? 'advertised' : 'not advertised'}) the instance differs from a fresh creation: ${d}`.slice(0, 400), { src: c.src, field: c.n })
+    report.count('prototype_named_field_probes')
+  }
+}
+
 function compileDynSlotChild(ctx) {
   ctx.dynSlotChild = evalGroups(compileMany([{ id: 'child', files: [['child', DYN_SLOT_CHILD_SRC]], scripts: [] }]).get('child').groups)
 }
@@ -173,6 +206,7 @@ export async function run(ctx) {
   X.sameOptions.signedZero = false // an updated instance is compared with a fresh one: the runtime's change detection is `!==`
   const { report, tier } = ctx
   const N = tier === 'thorough' ? 12000 : 1200
+  if (ctx.shard === 0) protoNamedProbes(ctx)
   const cases = makeCases(ctx, N)
   for (let i = 0; i < cases.length; i += 300) {
     const batch = cases.slice(i, i + 300)
@@ -191,5 +225,6 @@ export async function replay(ctx) {
   compileDynSlotChild(ctx)
   X.sameOptions.signedZero = false
   const w = ctx.replay.witness
+  if (w.src && !w.caseSeed) { protoNamedProbes(ctx); return }
   for (const c of makeCases(ctx, 1, [w.caseSeed])) judge(ctx, c, compileMany([{ id: c.id, files: c.sources, scripts: Object.entries(c.fs.scripts) }]).get(c.id))
 }
